@@ -368,4 +368,10 @@ def rule_c(ctx):
             if ok else why)
 
 
-RULES = [('C19.a', rule_a), ('C19.b', rule_b), ('C19.c', rule_c)]
+def rule_d(ctx):
+    """Route tables and unknown-route handlers belong to one router (a request is decided by that router alone)."""
+    from . import plumbing
+    plumbing.rule_shared_defaults(ctx, 'C19.d', ['rsocket.routing'], 'routing')
+
+
+RULES = [('C19.a', rule_a), ('C19.b', rule_b), ('C19.c', rule_c), ('C19.d', rule_d)]
